@@ -83,6 +83,18 @@ class CFGProp(Prop):
         return RC.from_case(case, vn, tn)
 
 
+def word_map(case, scheme):
+    """-> (to_scheme, from_scheme): translate word tuples between the plain terminal names and the scheme's"""
+    _, plain = G.names(case, "plain")
+    _, tn = G.names(case, scheme)
+    if list(plain) == list(tn):
+        ident = lambda w: tuple(w)
+        return ident, ident
+    fw = {("s", p): t for p, t in zip(plain, tn)}
+    bw = {(type(t).__name__, t): p for p, t in zip(plain, tn)}
+    return (lambda w: tuple(fw.get(("s", x), x) for x in w)), (lambda w: tuple(bw.get((type(x).__name__, x), x) for x in w))
+
+
 def lib_words_to_tuples(items):
     """items yielded by the library (lists of Terminal) -> list of tuples of values; raises on malformed items."""
     m = O.cfgmod()
